@@ -27,10 +27,10 @@ m = {
     "version": 1,
     "setup_cmd": "./setup.sh",
     "hooks": {
-        "guard": "cfg(kani)",
-        "enable": "no hook is committed to /repo: every check copies /repo's working tree to a scratch directory and appends `#[cfg(kani)] #[path = \"/verif/kani/<m>.rs\"] mod __verif;` lines to the copy (cargo-kani sets cfg(kani)); the MIR engine reads rustc's MIR of the unmodified sources",
+        "guard": "cargo feature `verif-hooks` (source hook in /repo); cfg(kani) (harness modules appended to scratch copies only)",
+        "enable": "native replay builds /repo with `--features verif-hooks` (native/Cargo.toml); Kani checks copy /repo's working tree to a scratch directory and appends `#[cfg(kani)] #[path = \"/verif/kani/<m>.rs\"] mod __verif;` lines to the copy (cargo-kani sets cfg(kani)); the MIR engine reads rustc's MIR of the unmodified sources",
         "baseline_off_cmd": "cd /repo && cargo test --workspace --no-fail-fast --offline",
-        "source_commits": [],
+        "source_commits": ["0b78bbd"],
         "add_only": True,
     },
     "engines": md.ENGINES,
